@@ -4,14 +4,15 @@ import SakuraVerif.Model.Smf
 namespace Sakura.Driver
 open Sakura Sakura.Wire
 
-/-- declarative PlayFrom law (independent of the loop/accumulator formulation of the model): in time order (issue order within a
-    tick), per channel the latest controller values and program written before the point, then the kept events -/
-def pfDropped (p : Int) (e : Event) : Bool :=
-  decide (e.time - p < 0) && decide (0 ≤ e.ch ∧ e.ch < 16) && (e.kind == .voice || (e.kind == .cc && decide (0 ≤ e.v1 ∧ e.v1 < 128)))
+/-- declarative PlayFrom law (independent of the loop/accumulator formulation of the model): the events before the point are looked
+    at in time order (issue order within a tick): per channel their latest controller values and program are re-issued, their meta and
+    SysEx events move to tick 0; the events at or after the point follow, shifted, in the order they were issued -/
+def pfDropped (e : Event) : Bool :=
+  decide (0 ≤ e.ch ∧ e.ch < 16) && (e.kind == .voice || (e.kind == .cc && decide (0 ≤ e.v1 ∧ e.v1 < 128)))
 
 def pfLaw (p : Int) (es0 : List Event) : List Event :=
-  let es := es0.mergeSort (fun a b => decide (a.time ≤ b.time))
-  let dropped := es.filter (pfDropped p)
+  let before := (es0.filter (fun e => decide (e.time < p))).mergeSort (fun a b => decide (a.time ≤ b.time))
+  let dropped := before.filter pfDropped
   let perCh := (List.range 16).map (fun (c : Nat) =>
     let mine := dropped.filter (fun e => e.ch == (c : Int))
     let ccs := (List.range 128).filterMap (fun (no : Nat) =>
@@ -22,11 +23,11 @@ def pfLaw (p : Int) (es0 : List Event) : List Event :=
       | some e => if e.v1 ≥ 0 then [(⟨.voice, 0, (c : Int), e.v1, 0, 0, []⟩ : Event)] else []
       | none => []
     ccs ++ voice)
-  let kept := es.filterMap (fun e =>
+  let metas := (before.filter (fun e => e.kind == .metaEv || e.kind == .sysex)).map (fun e => { e with time := 0 })
+  let kept := (es0.filter (fun e => decide (p ≤ e.time))).filterMap (fun e =>
     match e.kind with
-    | .metaEv | .sysex => some { e with time := if e.time - p < 0 then 0 else e.time - p }
-    | .noteOn | .voice | .cc => if e.time - p < 0 then none else some { e with time := e.time - p }
+    | .metaEv | .sysex | .noteOn | .voice | .cc => some { e with time := e.time - p }
     | _ => none)
-  perCh.flatten ++ kept
+  perCh.flatten ++ metas ++ kept
 
 end Sakura.Driver
